@@ -50,8 +50,13 @@ func c03Extras3(c *Ctx) {
 	} else {
 		c.Undecided("R-CUT", "x509.ParseRevocationList", "anchor", "-", "not found")
 	}
-	if fn := w.Fn("z/rsa.VerifyPSS"); fn != nil {
+	if top := w.Fn("z/rsa.VerifyPSS"); top != nil {
 		n := 0
+		// in VerifyPSS or in an unexported helper only it calls
+		for _, fn := range w.familyOf(top) {
+		if fn.Name() == "emsaPSSVerify" {
+			continue // the EMSA-PSS-VERIFY routine slices the message by the RFC offsets (C23's rules)
+		}
 		for _, b := range fn.Blocks {
 			for _, in := range b.Instrs {
 				sl, ok := in.(*ssa.Slice)
@@ -87,7 +92,8 @@ func c03Extras3(c *Ctx) {
 					}, MinTargets: -1})
 			}
 		}
-		c.Check(n >= 1, "R-CUT", "rsa.VerifyPSS", "re-slicing of the encoded message found", w.Pos(fn.Pos()), fmt.Sprint(n))
+		}
+		c.Check(n >= 1, "R-CUT", "rsa.VerifyPSS", "re-slicing of the encoded message found", w.Pos(top.Pos()), fmt.Sprint(n))
 	}
 }
 
